@@ -506,7 +506,10 @@ func genC14(c *Cfg, emit func([]string)) {
 			case 0:
 				h = append(h, strings.TrimSpace(fmt.Sprintf("call %s %s %s %s", pick(creators), pick(acls), hx(pick(c14fns)), strings.Join(vec(rng.Intn(9)), " "))))
 			case 1:
-				h = append(h, strings.TrimSpace(fmt.Sprintf("signed %s %s %s", pick([]string{"direct", "task"}), pick(acls), func() string { f := pick(c14fns[12:]); return f + " " + pick(signers) + " " + strings.Join(vec(argc(f, 6)), " ") }())))
+				h = append(h, strings.TrimSpace(fmt.Sprintf("signed %s %s %s", pick([]string{"direct", "task"}), pick(acls), func() string {
+					f := pick(c14fns[12:])
+					return f + " " + pick(signers) + " " + strings.Join(vec(argc(f, 6)), " ")
+				}())))
 			case 2:
 				// structured task lists with too few / too many arguments (the shape of the repaired defect)
 				k := rng.Intn(6)
